@@ -31,7 +31,7 @@ MODELS = ["Gaussian", "Exponential", "Matern", "Integral", "TPLGaussian", "JBess
 
 def generate(tier, seed):
     rng = np.random.default_rng([seed, 17])
-    n = {"quick": 60, "thorough": 600}[tier]
+    n = {"quick": 60, "thorough": 5000}[tier]
     cases = []
     for rep in range(n):
         for dim in (1, 2, 3):
